@@ -8,6 +8,7 @@ import (
 	"path/filepath"
 	"strings"
 	"testing"
+	"time"
 
 	"github.com/fsnotify/fsnotify"
 	"github.com/rs/zerolog"
@@ -48,6 +49,18 @@ func fsProvSim(r *simcore.Run) {
 		f := files[n]
 		f.version = 1
 		os.WriteFile(f.path, []byte(provsim.RuleSetYAML(strings.TrimSuffix(n, ".yaml"), 1, 1)), 0o600)
+	}
+	// The simulated disk has coarse modification times (as file systems with 1-2 s granularity, or tools preserving
+	// times, produce): every write stamps the file with the simulated clock, which advances only now and then.
+	simClock := time.Date(2024, 1, 1, 0, 0, 0, 0, time.UTC)
+	stamp := func(path string) {
+		simClock = simClock.Add(time.Duration([]int{0, 0, 1, 7}[s.Draw(4, "clock-advance")]) * time.Second)
+		os.Chtimes(path, simClock, simClock)
+	}
+	for _, n := range names {
+		if _, err := os.Stat(files[n].path); err == nil {
+			stamp(files[n].path)
+		}
 	}
 	p := &Provider{src: dir, p: rec, l: zerolog.Nop(), configured: true}
 	// what the provider observes when it looks at a file now
@@ -136,6 +149,7 @@ func fsProvSim(r *simcore.Run) {
 				ev(fsnotify.Create)
 			}
 			os.WriteFile(f.path, []byte(provsim.RuleSetYAML(name, f.version, 1+f.version%2)), 0o600)
+			stamp(f.path)
 			ev(fsnotify.Write)
 			r.Logf("op%d write %s v%d (existed=%v)", op, n, f.version, exists)
 		case k <= 2: // overwrite in two steps: truncate, then the new content (torn write)
@@ -147,16 +161,19 @@ func fsProvSim(r *simcore.Run) {
 			os.WriteFile(f.path, []byte(doc[:cut]), 0o600)
 			ev(fsnotify.Write)
 			os.WriteFile(f.path, []byte(doc), 0o600)
+			stamp(f.path)
 			ev(fsnotify.Write)
 			r.Logf("op%d torn overwrite %s v%d (cut at %d)", op, n, f.version, cut)
 			nontrivial = true
 		case k == 3: // invalid content
 			os.WriteFile(f.path, []byte("version: \"1alpha4\"\nrules:\n  - id: [unclosed\n"), 0o600)
+			stamp(f.path)
 			ev(fsnotify.Write)
 			r.Logf("op%d write invalid content to %s", op, n)
 			nontrivial = true
 		case k == 4: // truncate to empty
 			os.WriteFile(f.path, nil, 0o600)
+			stamp(f.path)
 			ev(fsnotify.Write)
 			r.Logf("op%d truncate %s", op, n)
 			nontrivial = true
@@ -177,6 +194,7 @@ func fsProvSim(r *simcore.Run) {
 		case k == 8: // same content rewritten
 			data, _ := os.ReadFile(f.path)
 			os.WriteFile(f.path, data, 0o600)
+			stamp(f.path)
 			ev(fsnotify.Write)
 			r.Logf("op%d rewrite %s with identical content", op, n)
 		default:
